@@ -1,7 +1,7 @@
 SPECIFICATION Spec
 CONSTANTS
-  Oct = {0, 1, 2}
-  DW = 4
+  Oct = {0, 1, 2, 255}
+  DW = 8
   RawSlot = TRUE
 INVARIANTS Survives Verifies
 CHECK_DEADLOCK FALSE
